@@ -277,3 +277,23 @@ package bigslice
 //@   ensures  sticky: implies(old(r.err) != nil, n == 0 && err == old(r.err) && userCalls == old(userCalls) && r.reader.nreads == old(r.reader.nreads))
 //@   ensures  classified: implies(old(r.err) == nil, userCalls == old(userCalls) + 1 && n == r.reader.lastN && r.err == err && ite(rvIface(lastCallRvs[0]) != nil && (r.reader.lastErr == nil || r.reader.lastErr == sliceio.EOF), ite(isTemporary(rvIface(lastCallRvs[0])), err == rvIface(lastCallRvs[0]), isFatal(err) && errCause(err) == rvIface(lastCallRvs[0])), err == r.reader.lastErr))
 //@   modifies r.err, r.state, ColMem, userCalls, lastCallRvs, SReader.nreads, SReader.lastN, SReader.lastErr, rowsSupplied, sawRowsWithEOF
+
+// ---- C01: ScanReader — shard s yields exactly lines s, s+nshard, s+2*nshard, ... of the input ----
+
+//@ func bigslice.skip (scan, n) (err)
+//@   requires scan != nil
+//@   ensures  advanced: implies(err == nil, scan.spos == old(scan.spos) + max(n, 0))
+//@   ensures  never-back: scan.spos >= old(scan.spos)
+//@   modifies scan.spos
+//@   loop 1 invariant 0 <= i && i <= max(n, 0) && scan.spos == old(scan.spos) + i
+
+//@ func bigslice.ScanReader$1 (shard, state, lines) (n, err)
+//@   requires state != nil && 0 <= shard && shard < nshard && nshard >= 1
+//@   requires later-calls-continue: implies(state.Scanner != nil, state.Scanner.spos >= 1)
+//@   may_panic
+//@   ensures  first-call-lines: implies(old(state.Scanner) == nil && err == nil, n == len(lines) && state.Scanner != nil && forall(i, 0, n, lines[i] == lineText(state.Scanner, shard + i * nshard)))
+//@   ensures  later-call-lines: implies(old(state.Scanner) != nil && err == nil, n == len(lines) && state.Scanner == old(state.Scanner) && forall(i, 0, n, lines[i] == lineText(state.Scanner, old(state.Scanner.spos) - 1 + (i + 1) * nshard)))
+//@   ensures  partial: implies(err != nil, 0 <= n && n <= len(lines))
+//@   modifies state.Scanner, state.Closer, lines[:], Scanner.spos, WCloser.zcloses, WCloser.zcloseErr
+//@   loop 1 invariant state.Scanner != nil && implies(first && range_idx == 0, state.Scanner.spos == shard + 1) && implies(first && range_idx >= 1, state.Scanner.spos == shard + 1 + (range_idx - 1) * nshard) && implies(!first, state.Scanner == old(state.Scanner) && state.Scanner.spos == old(state.Scanner.spos) + range_idx * nshard)
+//@   loop 1 invariant implies(first, forall(j, 0, range_idx, lines[j] == lineText(state.Scanner, shard + j * nshard))) && implies(!first, forall(j, 0, range_idx, lines[j] == lineText(state.Scanner, old(state.Scanner.spos) - 1 + (j + 1) * nshard)))
